@@ -69,6 +69,7 @@ class Exec:
         self.ctx, self.fn, self.depth = ctx, fn, depth
         self.obligations = []   # dicts: fn, block, kind, msg, pc(list of smt), neg(smt)
         self.returns = []       # (pc, value)
+        self.return_calls = []  # per return path: callee names called on the way
         self.env0 = {}
         for (p, ty), a in zip(fn.params, args):
             self.env0[p] = a
@@ -106,6 +107,8 @@ class Exec:
             return ("opq", "float:" + t)
         if t == "()":
             return ("opq", "unit")
+        if t.startswith("ZeroSized") or "promoted[" in t or t.startswith("{"):
+            return ("opq", "const:" + t)
         # named constant (possibly path-qualified): resolve through the dump
         name = t.split("::")[-1]
         if name in self.ctx.consts:
@@ -161,6 +164,8 @@ class Exec:
             b = self.read_place(env, m.group(1))
             if b[0] == "opq":
                 return ("opq", f"{b[1]}@{m.group(2)}")
+            if b[0] in ("option", "enum"):
+                return ("tuple", [b[2]])   # the variant's single payload field
         raise Unsupported("place: " + place)
 
     def operand(self, env, op):
@@ -227,10 +232,12 @@ class Exec:
         if m:
             v = self.read_place(env, m.group(1)) if not re.match(r"^_\d+$", m.group(1).strip()) or m.group(1).strip() in env else ("opq", f"{self.fn.name}:{m.group(1).strip()}")
             return v  # a reference is modelled by the object it points to
-        m = re.match(r"^(.*) as (\w+) \((\w+)\)$", rv)
+        m = re.match(r"^((?:copy|move|const) .*?) as (.+?) \(([A-Za-z]+(?:\(.*\))?)\)$", rv)
         if m:
             a = self.operand(env, m.group(1))
             to, kind = m.group(2), m.group(3)
+            if a[0] == "opq":
+                return ("opq", f"cast:{a[1]}")
             if kind == "IntToInt" and a[0] == "bv" and to in INT_W:
                 w2 = INT_W[to]
                 if w2 == a[2]:
@@ -246,6 +253,19 @@ class Exec:
             b = self.read_place(env, m.group(1))
             if b[0] == "opq":
                 return self.typed_fresh(f"discr({b[1]})", "isize")
+            if b[0] == "option":
+                return ("bv", f"(ite {b[1]} {bvlit(1, 64)} {bvlit(0, 64)})", 64)
+            if b[0] == "enum":
+                idx = {"None": 0, "Some": 1, "Ok": 0, "Err": 1}[b[1]]
+                return ("bv", bvlit(idx, 64), 64)
+        m = re.match(r"^PtrMetadata\((.*)\)$", rv)
+        if m:
+            a = self.operand(env, m.group(1))
+            return self.typed_fresh(f"len({self.key(a)})", "usize")
+        m = re.match(r"^[\w:<>, ()&'\[\]]*::(Ok|Err|Some|None)(?:\((.*)\))?$", rv)
+        if m and not rv.startswith("copy ") and not rv.startswith("move "):
+            payload = self.operand(env, m.group(2)) if m.group(2) else None
+            return ("enum", m.group(1), payload)
         m = re.match(r"^\{closure@.*\} \{.*\}$", rv)
         if m:
             return ("opq", "closure:" + rv)
@@ -294,6 +314,7 @@ class Exec:
                 return self._block(m.group(1), env, pc, steps + 1)
             if st == "return":
                 self.returns.append((list(pc), env.get("_0", ("opq", "unit"))))
+                self.return_calls.append(env.get("#calls", ()))
                 return
             if st in ("unreachable", "resume") or st.startswith("resume"):
                 return
@@ -338,6 +359,7 @@ class Exec:
                     self.obligations.append({"fn": self.fn.name, "block": bb, "kind": "panic", "msg": callee.strip(), "pc": list(pc), "neg": "true"})
                     return
                 val = self.call(callee.strip(), argv, dst, env, pc)
+                env["#calls"] = env.get("#calls", ()) + (callee.strip(),)
                 if dst:
                     self.assign(env, dst.strip(), val)
                 return self._block(ret, env, pc, steps + 1)
@@ -367,8 +389,14 @@ class Exec:
         return handler(self, callee, argv, argkey, ty, pc)
 
     def key(self, v):
+        if v is None:
+            return "()"
         if v[0] == "opq":
             return v[1]
+        if v[0] == "option":
+            return f"option({v[1]},{self.key(v[2])})"
+        if v[0] == "enum":
+            return f"{v[1]}({self.key(v[2])})"
         if v[0] in ("bv", "bool"):
             return self.ctx.key_of(v[1]) if re.match(r"^v\d+$", v[1]) else v[1]
         return "(" + ",".join(self.key(x) for x in v[1]) + ")"
